@@ -216,6 +216,7 @@ namespace pika::when_all_vector_detail {
 
         void finish() noexcept
         {
+            PIKA_VERIF_POINT(130, this);
             if (--predecessors_remaining == 0)
             {
                 if (!set_stopped_error_called)
